@@ -37,7 +37,7 @@ NP_OF = {
     'C09': [('MsmTests', ['_calc_times', '_chapman_kolmogorov_test', '_chapman_kolmogorov_test_md']), ('MsmCkApi', ['chapman_kolmogorov_test'])],
     'C19': [('PlotCkTest', ['_split_array'])],
     'C05': [('MdCoringApi', ['dynamical_coring'])],
-    'C20': [('UtilsFiltering', ['runningmean'])],
+    'C20': [('UtilsFiltering', ['runningmean']), ('UtilsGauss', ['gaussian_filter_1d', 'gaussian_filter_2d', 'gaussian_filter_3d'])],
     'C15': [('UtilsRelabel', ['unique', 'unique_counts', 'shift_data', 'shift_data_1d', 'rename_by_index', 'rename_by_population'])],
     'C02': [('StateTrajInit', ['init']), ('StateTrajAcc', ['states', 'nstates', 'ntrajs', 'nframes', 'index_trajs', 'index_trajs_flatten', 'trajs', 'trajs_flatten']),
             ('LumpedAcc', ['microstate_trajs', 'microstate_trajs_flatten', 'state_assignment_idx', 'trajs', 'index_trajs', 'init'])],
@@ -68,7 +68,7 @@ SOURCE_OF = {'MsmMsm': 'msm/msm.py', 'MdCorrections': 'md/corrections.py', 'MdTi
              'StateTrajHS': 'statetraj.py', 'MsmCummat': 'msm/timescales.py', 'MsmTimes': 'msm/timescales.py', 'StateTrajBase': 'statetraj.py',
              'UtilsRelabel': 'utils/_utils.py', 'StateTrajInit': 'statetraj.py', 'StateTrajAcc': 'statetraj.py', 'LumpedAcc': 'statetraj.py', 'StateTrajEst': 'statetraj.py', 'LumpedEst': 'statetraj.py', 'MsmEstimate': 'msm/msm.py', 'MsmMcmcApi': 'msm/timescales.py', 'UtilsFiltering': 'utils/filtering.py', 'IoLimits': 'io.py',
              'UtilsDatasets': 'utils/datasets.py', 'MsmCkApi': 'msm/tests.py', 'MdCompareApi': 'md/comparison.py', 'MdTimesApi': 'md/timescales.py', 'MdCoringApi': 'md/corrections.py',
-             'MsmLinalg': 'msm/utils/linalg.py', 'MsmIts': 'msm/timescales.py', 'UtilsSwap': 'utils/_utils.py', 'IoOpen': 'io.py', 'MsmTimesApi': 'msm/timescales.py'}
+             'MsmLinalg': 'msm/utils/linalg.py', 'MsmIts': 'msm/timescales.py', 'UtilsSwap': 'utils/_utils.py', 'IoOpen': 'io.py', 'MsmTimesApi': 'msm/timescales.py', 'UtilsGauss': 'utils/filtering.py'}
 ATOL = 1e-8
 G = 1 << 53
 
@@ -394,6 +394,16 @@ def gen_cases(module, kernel, rng, n):
             n_ = rng.randint(1, 12)
             arr = [rng.randint(-16, 16) / 4 for _ in range(n_)]
             yield {'k': kernel, 'args': [[core.rat_str(v) for v in arr], rng.randint(1, 14)], 'floats': arr, 'mode': 'py'}
+        elif module == 'UtilsGauss':
+            r_, c_ = rng.randint(1, 8), rng.randint(1, 4)
+            sig = rng.choice([0.5, 1.0, 2.0, 3.5])
+            if kernel.endswith('1d'):
+                arr = [rng.randint(-16, 16) / 4 for _ in range(r_)]
+            elif kernel.endswith('2d'):
+                arr = [[rng.randint(-16, 16) / 4 for _ in range(c_)] for _ in range(r_)]
+            else:
+                arr = [[[rng.randint(-4, 4) / 2 for _ in range(rng.choice([1, 2]))] for _ in range(c_)] for _ in range(r_)]
+            yield {'k': kernel, 'args': None, 'floats': arr, 'sigma': sig, 'mode': 'py'}
         elif module == 'IoLimits' and kernel == 'open_limits_none':
             yield {'k': kernel, 'args': [rng.randint(0, 50)], 'mode': 'py'}
         elif module == 'UtilsSwap' and kernel == '_asindex':
@@ -598,6 +608,41 @@ def real_one(module, case):
         fn = None
     elif module in ('MsmEstimate', 'UtilsRelabel', 'StateTrajInit', 'UtilsDatasets'):
         inputs, fn = None, None
+    elif module == 'UtilsGauss':
+        # the two scipy filters are spied: their answers are the oracle answers, and they must be called with exactly the documented keywords
+        fn = None
+        rec = {}
+        r1, r2 = mod._gaussian_filter_1d, mod._gaussian_filter
+
+        def rats(x):
+            x = np.asarray(x)
+            return [core.rat_str(float(v)) for v in x] if x.ndim == 1 else [[core.rat_str(float(v)) for v in row] for row in x]
+
+        def s1(arr_, **kw_):
+            if set(kw_) != {'sigma', 'mode'} or kw_['mode'] != 'nearest':
+                raise core.HarnessError('gaussian_filter1d called with %r' % (kw_,))
+            out_ = r1(arr_, **kw_)
+            rec['filter1d'] = rats(out_)
+            return out_
+
+        def s2(arr_, **kw_):
+            if set(kw_) != {'sigma', 'mode'} or kw_['mode'] != 'nearest' or tuple(kw_['sigma'])[1:] != (0,) or np.asarray(arr_).ndim != 2:
+                raise core.HarnessError('gaussian_filter called with %r' % (kw_,))
+            out_ = r2(arr_, **kw_)
+            rec['filter2d'] = rats(out_)
+            return out_
+
+        def _run():
+            mod._gaussian_filter_1d, mod._gaussian_filter = s1, s2
+            try:
+                return rats(mod.gaussian_filter(np.array(case['floats'], dtype=np.float64), case['sigma']))
+            finally:
+                mod._gaussian_filter_1d, mod._gaussian_filter = r1, r2
+
+        def ratn(x):
+            return [ratn(y) for y in x] if isinstance(x, list) else core.rat_str(float(x))
+        inputs = {'args': [ratn(case['floats']), core.rat_str(case['sigma'])], '_rec3': rec}
+        case = dict(case, _run=_run)
     elif module in ('UtilsSwap', 'IoOpen'):
         inputs, fn = None, None
         if module == 'IoOpen':
@@ -1162,7 +1207,7 @@ def real_one(module, case):
                 return [int(v) for v in mod.propagate_MCMC(mh.StateTraj([np.array(a[0], dtype=np.int64)]), a[1], a[2], start=a[3])]
             finally:
                 mod._get_cummat, mod._propagate_MCMC, np.random.choice = o_cm, o_pr, o_ch
-        if module in ('MsmCkApi', 'MsmLinalg', 'MsmIts', 'MsmTimesApi'):
+        if module in ('MsmCkApi', 'MsmLinalg', 'MsmIts', 'MsmTimesApi', 'UtilsGauss'):
             return case['_run']()
         if module in ('MsmTimes', 'MdCompareApi', 'MdTimesApi', 'MdCoringApi', 'StateTrajAcc', 'LumpedAcc', 'StateTrajEst', 'LumpedEst') or (module == 'MsmTests' and k != '_calc_times'):
             return case['_run']()
